@@ -36,6 +36,9 @@ Next ==
        [] e.ev = "parse" -> LET p == Parse(e.in) IN
                           /\ Report("ParseOutcome", e.panic = FALSE /\ e.ok = p.ok)
                           /\ Report("NoInventedBytes", e.ok => \A k \in 1..Len(e.tags) : e.vals[k] = Get(p.items, e.tags[k]))
+                          \* the other accessors agree: the value as a string, its first byte (0 when the value is empty or absent)
+                          /\ Report("NoInventedBytes", (e.ok /\ ~e.panic) => \A k \in 1..Len(e.tags) :
+                                       LET v == Get(p.items, e.tags[k]) IN e.strs[k] = v /\ e.firsts[k] = (IF v = <<>> THEN 0 ELSE v[1]))
        [] OTHER -> TRUE
   /\ l' = l + 1
 Accepted == TLCGet("stats").diameter = Len(Trace) + 1
